@@ -73,13 +73,36 @@ func TestC09Rapid(t *testing.T) { C09NA.RunRapid(t) }
 
 func TestC10Rapid(t *testing.T) { C10Num.RunRapid(t) }
 func TestC10Enum(t *testing.T) {
-	n := envInt("VERIF_C10_DIGITS", 5)
-	for _, pos := range []string{"port_hostport", "port_userhost", "clen", "cseq"} {
+	n := envInt("VERIF_C10_DIGITS", 6)
+	for _, pos := range []string{"port_hostport", "port_userhost", "port_params", "clen", "cseq"} {
 		pos := pos
 		C10Num.RunShards(t, fmt.Sprintf("%s: all digit strings of length 1..%d", pos, n), true, 32, func(s int, emit func(CaseNum) bool) {
 			enumDigitStrings(n, s, 32, func(d B) bool { return emit(CaseNum{Pos: pos, Digits: d}) })
 		})
 	}
+	// every limit followed by 1..2 more digits, with and without leading zeros ("the prefix is exactly the limit")
+	C10Num.RunCases(t, "every range limit (255, 65535, 2^24, 2^32-1, 2^64-1 and neighbours) followed by every 1-2 digit suffix, with 0..2 leading zeros, in every position", true, func(emit func(CaseNum) bool) {
+		for _, b := range []string{"255", "256", "65534", "65535", "65536", "16777215", "16777216", "16777217", "4294967294", "4294967295", "4294967296",
+			"18446744073709551614", "18446744073709551615", "18446744073709551616", "999999999", "1000000000"} {
+			for suf := 0; suf < 110; suf++ {
+				tail := fmt.Sprintf("%d", suf)
+				if suf >= 10 {
+					tail = fmt.Sprintf("%02d", suf-10)
+				}
+				for z := 0; z <= 2; z++ {
+					ds := "00"[:z] + b + tail
+					for _, pos := range numPositions {
+						if pos == "q" {
+							continue
+						}
+						if !emit(CaseNum{Pos: pos, Digits: B(ds)}) {
+							return
+						}
+					}
+				}
+			}
+		}
+	})
 	// the neighbourhood of every boundary in every position, with every cut
 	C10Num.RunCases(t, "every listed boundary +-20 in every numeric position, one-shot and cut after every digit", true, func(emit func(CaseNum) bool) {
 		for _, b := range numBoundaries {
